@@ -181,17 +181,6 @@ pub fn leaf_table(recs: &[IRec], data: &[u8]) -> (String, usize) {
     (format!("T:{}", items.join(";")), total)
 }
 
-/// finding class F40: the file stores a phrase whose frequency is within reach of `u32::MAX`
-/// (the engine itself never stores more than MAX_USER_FREQ = 99 999 999)
-pub fn huge_stored_freq(recs: &[IRec], data: &[u8]) -> bool {
-    recs.iter().any(|r| {
-        r.s == 0
-            && r.b > 0
-            && r.a + r.b <= data.len() as u64
-            && decode_phrases(&data[r.a as usize..(r.a + r.b) as usize]).iter().any(|p| p.freq() >= 3_000_000_000)
-    })
-}
-
 /// record is used as a node by the traversals: the root, or a non-zero syllable
 fn nodeish(i: usize, r: &IRec) -> bool {
     i == 0 || r.s != 0
